@@ -703,7 +703,11 @@ func isPadding(val string) bool {
 		}
 		i = j
 	}
-	for i < len(val) && (val[i] == '*' || val[i] == '/') {
+	// flags: an optional '*', then an optional '/'
+	if i < len(val) && val[i] == '*' {
+		i++
+	}
+	if i < len(val) && val[i] == '/' {
 		i++
 	}
 	return i == len(val)
